@@ -100,10 +100,11 @@ def grid():
 def plan(tier, seed):
     g = grid()
     if tier == 'quick':
-        return [{'k': 'cell', 'cell': i, 'rep': 0} for i in range(len(g))] + [{'k': 'nested-random'}] * 3000
+        return [{'k': 'cell', 'cell': i, 'rep': 0} for i in range(len(g))] + [{'k': 's2', 'cell': i, 'rep': 0} for i in range(len(s2_grid()))] + [{'k': 'nested-random'}] * 3000
     items = []
     for rep in range(8):
         items += [{'k': 'cell', 'cell': i, 'rep': rep} for i in range(len(g))]
+        items += [{'k': 's2', 'cell': i, 'rep': rep} for i in range(len(s2_grid()))]
     return items + [{'k': 'nested-random'}] * 100000
 
 
@@ -259,10 +260,211 @@ def gen_cell(cell, rng, rep):
 def gen(item, rng, tier):
     if item['k'] == 'cell':
         return gen_cell(grid()[item['cell']], rng, item['rep'])
+    if item['k'] == 's2':
+        return gen_s2(s2_grid()[item['cell']], rng, item['rep'])
     case = c18.gen_case({'k': 'stream'}, rng, tier)
     case['hooks'] = bool(rng.getrandbits(1))
     case['scenario'] = 'nested-random'
     return case
+
+
+# ------------------------------------------------------------------ Data Aborts raised by real translation tables, first and second stage
+# The routing of a Data Abort depends on WHICH STAGE of the translation refused the access (TakeDataAbortException: SecondStageAbort() -> Hyp mode
+# through the Hyp Trap vector).  In these cells the simulator builds both stages itself, so it knows the stage from the tables it wrote - not from the
+# exception object the emulator raises: Non-secure PL1/PL0 guest, HCR.VM = 1, stage-2 long-descriptor tables L1 -> L2 -> L3 with 4 KiB identity pages
+# for the low 2 MiB, stage 1 off (HCR.DC = 0/1) or short-descriptor sections; one page/section carries the fault.
+
+S2T = 0x50000                 # table device: +0 stage-2 L1, +0x1000 L2, +0x2000 L3, +0x4000 stage-1 short-descriptor L1 (16 KiB)
+S2T_SZ = 0x8000
+ALIAS = 0x00100000            # VA of the second stage-1 section (maps PA 0): carries the stage-1 faults
+S2_FAULTS = ['none', 's2-trans', 's2-af', 's2-perm', 's2-dev', 's1-perm', 's1-trans', 's1-af', 's1-so']
+S2_MODES = ['usr', 'svc', 'irq', 'fiq', 'abt', 'und', 'sys']
+
+
+def _s2_grid():
+    cells = []
+    for fault in S2_FAULTS:
+        for st1 in ('off-dc', 'off', 'short', 'long'):
+            if fault in ('s1-perm', 's1-trans') and st1 not in ('short', 'long'):
+                continue
+            if fault == 's1-af' and st1 != 'long':
+                continue
+            if fault == 's1-so' and st1 != 'off':
+                continue
+            if fault == 's2-dev' and st1 == 'off':
+                continue                  # (with stage 1 off and HCR.DC = 0 the access is Strongly-ordered already at stage 1)
+            for mode in S2_MODES:
+                for t in (0, 1):
+                    for load in (0, 1):
+                        if fault == 's1-perm' and st1 == 'long' and mode != 'usr' and load:
+                            continue      # (no long-descriptor AP value denies a privileged read)
+                        cells.append({'fault': fault, 'st1': st1, 'mode': mode, 't': t, 'load': load})
+    return cells
+
+
+_S2GRID = None
+
+
+def s2_grid():
+    global _S2GRID
+    if _S2GRID is None:
+        _S2GRID = _s2_grid()
+    return _S2GRID
+
+
+def gen_s2(cell, rng, rep):
+    cfg = {'arch_version': 7, 'have_security_ext': True, 'have_virt_ext': True, 'have_lpae': True, 'memory_system_architecture': 'VMSA', 'number_of_mpu_regions': 12}
+    cfg.update(G.impdef_switches(rng))
+    fault, st1, thumb, load = cell['fault'], cell['st1'], cell['t'], cell['load']
+    devices = G.std_devices()
+    tab = {'kind': 'ram', 'begin': S2T, 'end': S2T + S2T_SZ}
+    devices.append(tab)
+    ee1, ee2 = rng.getrandbits(1), rng.getrandbits(1)      # SCTLR.EE / HSCTLR.EE: the byte order of the stage-1 / stage-2 descriptors
+    q = lambda off, v: G.set_data(tab, off, v.to_bytes(8, 'big' if ee2 else 'little'))
+    w = lambda off, v: G.set_data(tab, off, v.to_bytes(4, 'big' if ee1 else 'little'))
+    NORMAL = 0xF << 2
+    q(0, (S2T + 0x1000) | 0b11)
+    for i in (1, 2, 3):
+        q(8 * i, i << 30 | 1 << 10 | 3 << 6 | NORMAL | 0b01)                 # 1 GiB identity blocks (the high vectors live in the last one)
+    q(0x1000, (S2T + 0x2000) | 0b11)
+    for i in range(1, 512):
+        q(0x1000 + 8 * i, i << 21 | 1 << 10 | 3 << 6 | NORMAL | 0b01)
+    page = G.DATA >> 12
+    unaligned = fault in ('s2-dev', 's1-so') or (fault == 'none' and st1 != 'off' and rng.random() < 0.5)
+    for i in range(512):
+        d = i << 12 | 1 << 10 | 3 << 6 | NORMAL | 0b11
+        if i == page:
+            if fault == 's2-trans':
+                d = rng.choice([d & ~1, d & ~2, 0, d & ~3])                          # invalid, or the encoding that is reserved at level 3
+            elif fault == 's2-af':
+                d &= ~(1 << 10)
+            elif fault == 's2-perm':
+                d = (d & ~(3 << 6)) | rng.choice([0, 2 if load else 1]) << 6       # HAP: none, or only the other direction
+            elif fault == 's2-dev':
+                d = (d & ~(0xF << 2)) | rng.choice([0b0000, 0b0001]) << 2           # Strongly-ordered / Device
+            elif fault == 'none' and rng.random() < 0.5:
+                d = (d & ~(3 << 6)) | (1 if load else 2) << 6                      # exactly the direction used
+        q(0x2000 + 8 * i, d)
+    # stage 1
+    sect = lambda pa, ap, dom=0: (pa & 0xFFF00000) | (ap & 3) << 10 | (ap >> 2) << 15 | dom << 5 | 0b1110       # C = B = 1: Normal write-back
+    w(0x4000, sect(0, 3))
+    w(0x4000 + 4 * 0xFFF, sect(0xFFF00000, 3))
+    usr = cell['mode'] == 'usr'
+    if fault == 's1-perm':
+        a = sect(0, rng.choice([0, 1] if usr else [0]) if rng.random() < 0.6 or not load else 0)
+        if not load and rng.random() < 0.5:
+            a = sect(0, rng.choice([5, 2] if usr else [5, 7, 6]))              # read-only for this privilege
+    elif fault == 's1-trans':
+        a = rng.choice([0, sect(0, 3) & ~3])
+    else:
+        a = sect(0, 3)
+    if st1 != 'long':
+        w(0x4000 + 4 * (ALIAS >> 20), a)
+    via_alias = st1 in ('short', 'long') and (fault in ('s1-perm', 's1-trans', 's1-af') or rng.random() < 0.5)
+    alias = ALIAS
+    if st1 == 'long':
+        # long-descriptor stage 1 (TTBCR.EAE = 1, T0SZ = 0): L1 at +0x4000 -> L2 at +0x5000 -> L3 at +0x6000 (identity pages for the low 2 MiB, AttrIndx 0 =
+        # Normal write-back through MAIR0); the page at VA 0x80000 maps the data page a second time and carries the stage-1 faults.  Its descriptors are
+        # stage-1 descriptors (byte order SCTLR.EE) fetched through stage 2
+        q1 = lambda off, v: G.set_data(tab, off, v.to_bytes(8, 'big' if ee1 else 'little'))
+        q1(0x4000, (S2T + 0x5000) | 0b11)
+        for i in (1, 2, 3):
+            q1(0x4000 + 8 * i, i << 30 | 1 << 10 | 1 << 6 | 0b01)
+        q1(0x5000, (S2T + 0x6000) | 0b11)
+        for i in range(1, 512):
+            q1(0x5000 + 8 * i, i << 21 | 1 << 10 | 1 << 6 | 0b01)
+        alias = 0x80000
+        for i in range(512):
+            d = i << 12 | 1 << 10 | 1 << 6 | 0b11                      # AF, AP[2:1] = 01: read/write at any privilege
+            if i == alias >> 12:
+                d = (G.DATA & ~0xFFF) | 1 << 10 | 1 << 6 | 0b11
+                if fault == 's1-trans':
+                    d = rng.choice([d & ~1, d & ~2, 0])                 # invalid, or the encoding that is reserved at level 3
+                elif fault == 's1-af':
+                    d &= ~(1 << 10)
+                elif fault == 's1-perm':
+                    # AP[2:1]: 00 read/write PL1 only, 01 read/write, 10 read-only PL1 only, 11 read-only
+                    ap = rng.choice(([0, 2] if load else [0, 2, 3]) if usr else [2, 3])
+                    d = (d & ~(3 << 6)) | ap << 6
+            q1(0x6000 + 8 * i, d)
+    addr = ((alias - (G.DATA if st1 == 'long' else 0)) if via_alias else 0) + G.DATA + 0x400 + 4 * rng.randrange(0, 64)
+    if unaligned:
+        addr += rng.choice([1, 2, 3])
+    ipa = G.DATA + (addr & 0xFFF)                   # (every alias maps the data page)
+    hcr = 1 | (1 << 12 if st1 == 'off-dc' else 0) | rng.getrandbits(1) << 3 | rng.getrandbits(1) << 4 | rng.getrandbits(1) << 5
+    scr = 1 | rng.getrandbits(1) << 3 | rng.getrandbits(1) << 4 | rng.getrandbits(1) << 5
+    sct = G.sctlr_value(m=1 if st1 in ('short', 'long') else 0, a=0, v=rng.getrandbits(1), u=1, te=rng.getrandbits(1), ee=ee1, nmfi=rng.getrandbits(1), tre=1)
+    sys = {'sctlr': sct, 'prrr': 0xFF0A81A8, 'nmrr': 0x40E040E0, 'scr': scr, 'hcr': hcr, 'hsctlr': rng.getrandbits(1) << 30 | ee2 << 25,
+           'vbar': rng.getrandbits(27) << 5, 'mvbar': rng.getrandbits(27) << 5, 'hvbar': rng.getrandbits(27) << 5,
+           'vttbr': S2T, 'vtcr': 1 << 6 | rng.getrandbits(6) << 8, 'ttbr0': S2T + 0x4000, 'ttbr0_64': S2T + 0x4000, 'ttbr1': S2T + 0x4000, 'ttbr1_64': S2T + 0x4000,
+           'ttbcr': 1 << 31 if st1 == 'long' else 0, 'mair0': 0xFF | rng.getrandbits(24) << 8, 'mair1': rng.getrandbits(32), 'dacr': rng.choice([1, 0x55555555]), 'hstr': 0,
+           'dfar': rng.getrandbits(32), 'hdfar': rng.getrandbits(32), 'hsr': rng.getrandbits(32), 'hpfar': rng.getrandbits(28) << 4}
+    it = 0
+    if thumb and rng.random() < 0.4:
+        it = 0xE0 | rng.choice([0x8, 0x4, 0xC, 0x2, 0x6, 0xA, 0xE, 0x1, 0xF])
+    cpsr = G.random_cpsr(rng, cfg, mode=cell['mode'], thumb=thumb, it=it, e=None)
+    R = G.random_regfile(rng, cfg)
+    R['R1usr'] = addr
+    pc = rng.choice([G.CODE + 4 * rng.randrange(0, 256), G.LOW + 0x40 + 4 * rng.randrange(0, 64), G.HIGH + 0x100 + 4 * rng.randrange(64)])
+    state = {'cpsr': cpsr, 'pc': pc, 'sys': sys, 'R': R, 'spsr': G.random_spsrs(rng, cfg), 'elr_hyp': rng.getrandbits(32)}
+    if thumb:
+        word = T.ldst_imm('ldr' if load else 'str', 0, 1, 0) << 16 | 0xBF00
+    else:
+        word = A.ldst(load, 0, 1, 0)
+    G.set_data(devices[2], 0x400, bytes(rng.getrandbits(8) for _ in range(0x110)))
+    core = {'config': cfg, 'devices': devices, 'regs': state, 'words': [word], 'force': None, 'no_poke': [S2T]}
+    return {'scenario': 's2', 'cell': dict(cell), 'cores': [core], 'events': [], 'addr': addr, 'ipa': ipa, 'max_ticks': 2, 'stop_at_done': False}
+
+
+class S2Checker:
+    """what the tables built by gen_s2 prescribe: whether the access aborts, which stage refuses it (-> Abort mode or Hyp mode: the EntryMonitor's
+    model is told the stage), and where the faulting address is reported"""
+
+    def __init__(self, b, mon, case):
+        self.b, self.mon, self.case = b, mon, case
+        f = case['cell']['fault']
+        self.want = None if f == 'none' else ('s2' if f.startswith('s2') else 's1')
+        mon.stage_override = (self.want == 's2')
+
+    def on_tick(self, b, rec):
+        if rec['tick'] != 0 or rec['what'] != 'step':
+            return
+        cell, addr = self.case['cell'], self.case['addr']
+        if rec['nie']:
+            b.count('probe.s2-ended-in-unimplemented-hook')
+            return
+        if rec['exc'] or not self.mon.complete:
+            return
+        got = [k for tt, k in self.mon.taken if tt == 0]
+        r = b.cores[0].arm.registers
+        if self.want is None:
+            if got:
+                b.violate('entry_dispatch', 'dabt', 'spurious_abort', 'access at %#x permitted by both stages (%s, %s) but %s taken; DFSR=%#x HSR=%#x' % (
+                    addr, cell['st1'], cell['fault'], got, r.dfsr.value, r.hsr.value))
+            b.count('s2.no-fault-checked')
+            return
+        if got != ['dabt']:
+            b.violate('entry_dispatch', 'dabt', 'not_taken' if not got else 'wrong_kind', '%s at %#x (stage 1 %s, fault %s): expected one Data Abort entry, dispatched %s' % (
+                'load' if cell['load'] else 'store', addr, cell['st1'], cell['fault'], got or 'none'))
+            return
+        mode = rec['post'][1] & 0x1F
+        b.count('s2.%s-checked' % cell['fault'])
+        b.cover.add('s2|%s|%s|%s|%d|%d|%x' % (cell['fault'], cell['st1'], cell['mode'], cell['t'], cell['load'], mode))
+        # (the target mode and every saved value were compared by the EntryMonitor, with the stage taken from the tables)
+        if mode == 0x1a:
+            if r.hdfar != addr:
+                b.violate('entry_syndrome', 'dabt', 'hdfar', 'second-stage %s at %#x taken to Hyp mode: HDFAR = %#x' % (cell['fault'], addr, r.hdfar))
+            ec = (r.hsr.value >> 26) & 0x3F
+            if ec != 0x24:
+                b.violate('entry_hsr', 'dabt', 'hsr_ec', 'Data Abort from a Non-secure PL1/PL0 mode taken to Hyp mode: HSR.EC = %#x, expected 0x24' % ec)
+            if cell['fault'] in ('s2-trans', 's2-af') and (r.hpfar.value >> 4) != self.case['ipa'] >> 12:
+                # (HPFAR is valid for second-stage Translation and Access flag faults; UNKNOWN for a second-stage Permission fault on the access itself)
+                b.violate('entry_syndrome', 'dabt', 'hpfar', 'second-stage %s at VA %#x, IPA %#x: HPFAR = %#x' % (cell["fault"], addr, self.case['ipa'], r.hpfar.value))
+        elif mode == 0x17:
+            if r.dfar != addr:
+                b.violate('entry_syndrome', 'dabt', 'dfar', 'first-stage %s at %#x taken to Abort mode: DFAR = %#x' % (cell['fault'], addr, r.dfar))
+            if (r.dfsr.value >> 11) & 1 != (0 if cell['load'] else 1):
+                b.violate('entry_syndrome', 'dabt', 'dfsr_wnr', 'first-stage %s (%s) at %#x: DFSR = %#x' % (cell['fault'], 'load' if cell['load'] else 'store', addr, r.dfsr.value))
 
 
 # ------------------------------------------------------------------ expected dispatch for controlled injections
@@ -449,6 +651,12 @@ def run(case):
         inj = Injector(b, mon, case)
         b.injector = inj
         b.observers = [mon, inj, RangeMonitor(report=False)]
+    elif case['scenario'] == 's2':
+        b = StreamBoard(case, [])
+        # (the integrator's hook of the stream runs below: without it every Hyp-routed abort ends in the declared-unimplemented cache-maintenance mock)
+        b.cores[0].arm.tlb_lookup_came_from_cache_maintenance = lambda: False
+        mon = EntryMonitor(b, 0)
+        b.observers = [mon, S2Checker(b, mon, case), RangeMonitor(report=False)]
     else:
         b = StreamBoard(case, [])
         if case.get('hooks'):
@@ -471,10 +679,20 @@ def sample(case, res):
          'ticks': res['ticks'], 'violations': res['violations'][:2]}
     if case['scenario'] == 'entry':
         d.update(cell=case['cell'], inject=case['inject'], nest=case['nest'], sys={k: hex(v) for k, v in c['regs']['sys'].items() if isinstance(v, int)})
+    if case['scenario'] == 's2':
+        d.update(cell=case['cell'], addr=hex(case['addr']), sys={k: hex(v) for k, v in c['regs']['sys'].items() if isinstance(v, int)})
     return d
 
 
 def shrink(case):
+    if case['scenario'] == 's2':
+        core = case['cores'][0]
+        regs = core['regs']
+        if regs.get('spsr'):
+            yield dict(case, cores=[dict(core, regs=dict(regs, spsr={}))])
+        if len(regs.get('R') or {}) > 1:
+            yield dict(case, cores=[dict(core, regs=dict(regs, R={'R1usr': regs['R']['R1usr']}))])
+        return
     if case['scenario'] != 'entry':
         for c in c18.shrink(dict(case, scenario='corrupt')):
             yield dict(c, scenario='nested-random')
